@@ -43,5 +43,27 @@ Proof.
     - simpl. apply IH. }
   apply G.
 Qed.
+(* non-vacuity: concrete wrappers, arguments and values that meet the hypotheses above *)
+Definition ty0 : ttype := {| t_shape := []; t_mindex := None; t_mname := None; t_anon := false; t_lits := [] |}.
+Definition annA (s:string) (o:bool) : annot :=
+  {| a_ty := match parse_shape s with Ok ty => ty | Err _ => ty0 end; a_dtypes := []; a_opt := o |}.
+Definition tenE (l:list Z) : tensor := {| x_lib := LNumpy; x_dt := KF32; x_shape := l |}.
+Definition arrE (l:list Z) : value := VArr (tenE l).
+Definition w12 : wrapped := {| w_params := [("x", (false, [Some (annA "k a=k+1" false)]))]; w_ret := None; w_provider := PFree |}.
+Example ex12_provided_size_accepted : run_call w12 (PSOk [("k", 3%Z)]) [("x", arrE [3;4]%Z)] (BReturn VNone) = (true, CReturned VNone).
+Proof. vm_compute. reflexivity. Qed.
+Example ex12_provided_size_contradicted : run_call w12 (PSOk [("k", 3%Z)]) [("x", arrE [2;3]%Z)] (BReturn VNone) = (false, CRejected (EShape "x" 0 3 2)).
+Proof. vm_compute. reflexivity. Qed.
+Example ex12_same_call_other_provider_value : run_call w12 (PSOk [("k", 2%Z)]) [("x", arrE [2;3]%Z)] (BReturn VNone) = (true, CReturned VNone).
+Proof. vm_compute. reflexivity. Qed.
+Example ex12_bad_provider : run_call w12 PSBad [("x", arrE [3;4]%Z)] (BReturn VNone) = (false, CRejected EScopeProvider).
+Proof. reflexivity. Qed.
+(* a history in which the provider's value changes between calls: each call sees the value in force then *)
+Definition f12 : wfn := {| wf_params := [("x", "T", false)]; wf_provider := Some "p" |}.
+Definition world12 : world := {| aliases := [("T", annA "k a=k+1" false)]; providers := [("p", [("k", 3%Z)])] |}.
+Example ex12_history :
+  snd (run_history current world12 [CallOp f12 [("x", arrE [3;4]%Z)]; SetProvider "p" [("k", 2%Z)]; CallOp f12 [("x", arrE [3;4]%Z)]; CallOp f12 [("x", arrE [2;3]%Z)]])
+  = [Some (CReturned VNone); None; Some (CRejected (EShape "x" 0 2 3)); Some (CReturned VNone)].
+Proof. vm_compute. reflexivity. Qed.
 Redirect "C12.assumptions.1" Print Assumptions C12_prebind.
 Redirect "C12.assumptions.2" Print Assumptions C12_consulted_every_call.
